@@ -339,6 +339,59 @@ def normalize_slice_bounded(check, tier):
     s.done()
 
 
+def env_width_failures():
+    """(runs in a child interpreter) width / width_at_offset / a few column ranges for one text per character class - plus the East Asian
+    AMBIGUOUS characters (Greek, box drawing, the combining accents themselves) - against the wcwidth column model: [[char, detail], ...]"""
+    from bounded.common import CHAR_CLASSES
+    out = []
+    sane = lambda: (wcwidth("a"), wcwidth("\uff25"), wcwidth("\u0301"), wcwidth("\u4e2d")) == (1, 2, 0, 2)
+    if not sane():
+        # the environment NAMES a locale that is not installed here (ja_JP.UTF-8 ...): give the C library the UTF-8 character type such a
+        # locale would have, the environment variables stay as they are
+        import locale
+        try:
+            locale.setlocale(locale.LC_CTYPE, "C.UTF-8")
+        except locale.Error:
+            pass
+    if not sane():
+        # cwcwidth asks the C library, whose wcwidth knows no Unicode widths in a locale without UTF-8 (LC_ALL=C, a locale that is not
+        # installed): every non-ASCII text is then "unmeasurable" for the dependency itself - the statement's ValueError case, nothing to judge
+        return out
+    for ch in CHAR_CLASSES + ["\u0300", "\u03b1", "\u2500", "\u00b1", "\u00e0", "\ufe00"]:
+        if wcwidth(ch) < 0:
+            continue
+        f = FmtStr(Chunk("a" + ch, ATTS[0]), Chunk(ch + "b", ATTS[1]))
+        d = width_case(f, f.s)
+        if not d:
+            w = sum(wcwidth(c) for c in f.s)
+            for a, b in ((0, 1), (0, w), (1, w), (1, 2), (0, w + 1)):
+                d = cut_case(f, a, b)
+                if d:
+                    break
+        if d:
+            out.append([f"U+{ord(ch):04X}", d[:300]])
+            if len(out) >= 4:
+                break
+    return out
+
+
+def environments(check, tier):
+    """columns are a matter of the characters, not of the process environment (a CJK locale name, TERM, colour conventions)"""
+    from bounded.common import ENVIRONMENTS, run_in_environment
+    s = Suite(check, "C10.environments", f"width, width_at_offset and column ranges for one text per character class and the East Asian Ambiguous characters in "
+              f"{len(ENVIRONMENTS)} fresh interpreters with other environment variables set before curtsies is imported (ja / zh / ko / tr locale names, "
+              "LC_ALL=C, TERM, NO_COLOR ...): the wcwidth column model", bound=f"{len(ENVIRONMENTS)} environments", exhaustive=False)
+    for env in ENVIRONMENTS:
+        s.case(tuple(sorted(env.items())), sample=dict(env))
+        ran, res = run_in_environment("props.C10", "env_width_failures", env)
+        if not ran:
+            check.note(f"C10.environments: child under {env} did not run: {res}")
+            continue
+        for ch, d in res[:3]:
+            s.fail("C10.width.environment", dict(environment=env, char=ch), d)
+    s.done()
+
+
 def long_inputs(check, tier):
     from bounded.common import long_values
     s = Suite(check, "C10.long", "width, width_at_offset and column ranges / index forms of values with thousands of runs against the column model",
@@ -381,5 +434,6 @@ def run(check, tier, seed):
     # too, not only in C06)
     verify(F.normalize_slice, tier, check, prefix="C10")
     normalize_slice_bounded(check, tier)
+    environments(check, tier)
     bounded(check, tier)
     derived(check, tier, seed)
